@@ -18,7 +18,8 @@ write (C03 `patched_field_designates`, C17) this is the frame argument for reloc
 "after relocate B every entry's field designates its target" (the fold over the entry list with these disjointness facts, incl.
 the address-table section); that composition is evaluated by the monitor on every explored program x base.
 -/
-import AsmjitVerif.Lemmas.RelEntry
+import AsmjitVerif.Lemmas.RelLoop
+import AsmjitVerif.Props.C04
 import AsmjitVerif.Props.C03E
 namespace AsmjitVerif.CodeHolder
 open AsmjitVerif.Offset
@@ -85,6 +86,103 @@ theorem reloc_entry_correct (arch : Arch) (base0 : BitVec 64) (ops : List Op) (h
               addrTab := (run (State.init arch base0) (ops ++ [.flatten, .resolve])).addrTab, nSlots := 0 } re = .ok acc') :
     ∃ new, field acc'.secs re.rgn.val = some new ∧ decode32 re.fmt (BitVec.ofNat 32 new) = v :=
   reloc_entry_exact _ (relocs_own_their_regions_final arch base0 ops hops) B re hre h8 v hv acc' hok
+
+/-- **relocation of a whole program, every base.** For every program of the menu followed by `flatten; resolve`, and every base
+`B`: if `relocate_to_base(B)` returns kOk then every relocation entry of the program is done (`EntryDone`): its value word -
+1, 2, 4 or 8 bytes, at any value offset - decodes under Spec/Offset.lean to exactly the specified value; entries routed through
+the address table hold the rel32 that reaches their slot.  (The fold over the entry list composed with
+`relocs_own_their_regions_final`: each iteration touches only its own region and the address-table section.) -/
+theorem reloc_correct (arch : Arch) (base0 : BitVec 64) (ops : List Op) (hops : ∀ op ∈ ops, op.early = true)
+    (B : BitVec 64) (s' : State) (n : Nat)
+    (h : relocate (run (State.init arch base0) (ops ++ [.flatten, .resolve])) B = (s', .ok, n)) :
+    ∀ re ∈ (run (State.init arch base0) (ops ++ [.flatten, .resolve])).relocs,
+      EntryDone { run (State.init arch base0) (ops ++ [.flatten, .resolve]) with base := B } B
+        (run (State.init arch base0) (ops ++ [.flatten, .resolve])).secs s'.secs re :=
+  relocate_spec _ (relocs_own_their_regions_final arch base0 ops hops) B s' n h
+
+/-- **reloc_abs_correct.** RelToAbs entries (embedded label addresses, 32-bit absolute `[label]` operands): after a successful
+relocation the value word is exactly `payload + base + target section offset` - never truncated (the unsigned format refuses
+what does not fit, C17) -/
+theorem reloc_abs_correct (arch : Arch) (base0 : BitVec 64) (ops : List Op) (hops : ∀ op ∈ ops, op.early = true)
+    (B : BitVec 64) (s' : State) (n : Nat)
+    (h : relocate (run (State.init arch base0) (ops ++ [.flatten, .resolve])) B = (s', .ok, n))
+    (re : Reloc) (hre : re ∈ (run (State.init arch base0) (ops ++ [.flatten, .resolve])).relocs) (hty : re.type = .relToAbs) :
+    ∃ t tgt, re.tgtSec = some t ∧ (run (State.init arch base0) (ops ++ [.flatten, .resolve])).secs[t]? = some tgt ∧
+      RDecodes s'.secs re.rgn (re.payload + (B + tgt.offset)) := by
+  rcases reloc_correct arch base0 ops hops B s' n h re hre with h0 | ⟨v, hv, hd⟩ | ⟨hx, _⟩
+  · rw [hty] at h0; cases h0
+  · unfold relocValue at hv
+    simp only [hty] at hv
+    cases ht : re.tgtSec with
+    | none => rw [ht] at hv; cases hv
+    | some t =>
+      rw [ht] at hv
+      simp only [Option.bind_some] at hv
+      cases hs : (run (State.init arch base0) (ops ++ [.flatten, .resolve])).secs[t]? with
+      | none => rw [hs] at hv; cases hv
+      | some tgt =>
+        rw [hs] at hv
+        simp only [Option.map_some, Option.some.injEq] at hv
+        exact ⟨t, tgt, rfl, hs, by rw [hv]; exact hd⟩
+  · rw [hty] at hx; cases hx
+
+/-- **reloc_rel_correct.** AbsToRel / X64AddressEntry entries in 64-bit mode: after a successful relocation either the rel32
+`v` written satisfies `end of instruction + v = payload` exactly (with `end of instruction = B + section offset + source
+offset + region size`), or - X64AddressEntry only - it is the rel32 that reaches the entry's address-table slot
+(`Lemmas/RelLoop.relocPrep_spec`: the instruction was rewritten to `FF /2|/4` and the slot holds the payload). -/
+theorem reloc_rel_correct (arch : Arch) (base0 : BitVec 64) (ops : List Op) (hops : ∀ op ∈ ops, op.early = true)
+    (B : BitVec 64) (s' : State) (n : Nat)
+    (h : relocate (run (State.init arch base0) (ops ++ [.flatten, .resolve])) B = (s', .ok, n))
+    (re : Reloc) (hre : re ∈ (run (State.init arch base0) (ops ++ [.flatten, .resolve])).relocs)
+    (hty : re.type = .absToRel ∨ re.type = .x64AddressEntry) (h64 : ¬ arch.regSize ≤ 4)
+    (harch : (run (State.init arch base0) (ops ++ [.flatten, .resolve])).arch = arch) :
+    let s := run (State.init arch base0) (ops ++ [.flatten, .resolve])
+    let site := B + secOffset s.secs re.srcSec + BitVec.ofNat 64 re.srcOff + BitVec.ofNat 64 re.regionSize
+    (∃ v, RDecodes s'.secs re.rgn v ∧ isInt32 v = true ∧ site + (v.truncate 32).signExtend 64 = re.payload) ∨
+    (re.type = .x64AddressEntry ∧ ∃ v ats slot, s.addrTabSec = some ats ∧ isInt32 v = true ∧ RDecodes s'.secs re.rgn v ∧
+      (B + secOffset s.secs re.srcSec + BitVec.ofNat 64 re.srcOff + BitVec.ofNat 64 re.regionSize) + (v.truncate 32).signExtend 64 =
+        B + (secOffset s.secs ats + BitVec.ofNat 64 (slot * s.arch.regSize))) := by
+  intro s site
+  rcases reloc_correct arch base0 ops hops B s' n h re hre with h0 | ⟨v, hv, hd⟩ | ⟨hx, _, v, ats, slot, h1, h2, h3, hd⟩
+  · rcases hty with e | e <;> rw [e] at h0 <;> cases h0
+  · left
+    unfold relocValue at hv
+    have h4 : ¬ s.arch.regSize ≤ 4 := by rw [harch]; exact h64
+    have key : ∀ x : BitVec 64, isInt32 x = true → x = re.payload - site → site + (x.truncate 32).signExtend 64 = re.payload := by
+      intro x hx he
+      have := abs_to_rel_reaches 0#64 site re.payload
+      simp only [BitVec.zero_add] at this
+      rw [he]; exact this (by rw [← he]; exact hx)
+    rcases hty with e | e
+    · simp only [e] at hv
+      try dsimp only at hv
+      split at hv
+      · rename_i hc; exact absurd hc h4
+      · split at hv
+        · rename_i hi
+          simp only [Option.some.injEq] at hv
+          exact ⟨v, hd, by rw [← hv]; exact hi, key v (by rw [← hv]; exact hi) hv.symm⟩
+        · cases hv
+    · simp only [e] at hv
+      try dsimp only at hv
+      split at hv
+      · rename_i hi
+        simp only [Option.some.injEq] at hv
+        exact ⟨v, hd, by rw [← hv]; exact hi, key v (by rw [← hv]; exact hi) hv.symm⟩
+      · cases hv
+  · right
+    refine ⟨hx, v, ats, slot, h1, h2, hd, ?_⟩
+    have := addr_table_slot_reached B (secOffset s.secs re.srcSec + BitVec.ofNat 64 re.srcOff + BitVec.ofNat 64 re.regionSize)
+      (secOffset s.secs ats + BitVec.ofNat 64 (slot * s.arch.regSize))
+    have h3' : v = secOffset s.secs ats + BitVec.ofNat 64 (slot * s.arch.regSize) -
+        (secOffset s.secs re.srcSec + BitVec.ofNat 64 re.srcOff + BitVec.ofNat 64 re.regionSize) := h3
+    rw [h3']
+    have hi : isInt32 (secOffset s.secs ats + BitVec.ofNat 64 (slot * s.arch.regSize) -
+        (secOffset s.secs re.srcSec + BitVec.ofNat 64 re.srcOff + BitVec.ofNat 64 re.regionSize)) = true := by rw [← h3']; exact h2
+    have e := this hi
+    rw [← e]
+    congr 1
+    ac_rfl
 
 /-- non-vacuity: three relocation entries (embedded label address, absolute call through the table, 8-byte label delta)
 and one fixup reference; regions [0,8), [8,14), [19,27) of .text -/
